@@ -25,14 +25,21 @@ def mk(text):
 
 
 def split_commas(toks, lo, hi):
-    """split toks[lo:hi] at depth-0 commas -> list of (a,b) ranges"""
-    out, depth, start = [], 0, lo
+    """split toks[lo:hi] at depth-0 commas -> list of (a,b) ranges; turbofish `::<..>` is a group"""
+    out, start = [], lo
     i = lo
+    angle = 0
     while i < hi:
         t = toks[i]
         if t.kind == "open":
             i = match_close(toks, i)
-        elif t.text == "," :
+        elif t.text == "<" and i > lo and toks[i - 1].text == "::":
+            angle += 1
+        elif t.text == ">" and angle > 0:
+            angle -= 1
+        elif t.text == ">>" and angle > 0:
+            angle = max(0, angle - 2)
+        elif t.text == "," and angle == 0:
             out.append((start, i))
             start = i + 1
         i += 1
@@ -290,12 +297,27 @@ class Normaliser:
         n = len(toks)
         for i, t in enumerate(toks):
             out.append(t)
-            if (t.kind == "id" and t.text in self.consts and i >= 2 and toks[i - 1].text == "::"
-                    and toks[i - 2].kind == "id" and toks[i - 2].text in self.const_prefix
+            if not (t.kind == "id" and t.text in self.consts and i >= 2 and toks[i - 1].text == "::"
                     and (i + 1 >= n or toks[i + 1].text not in ("(", "::"))):
-                # do not touch `Self::BITS` style paths that are part of a longer path prefix
-                if i >= 3 and toks[i - 3].text == "::":
-                    continue
+                continue
+            ok = False
+            if toks[i - 2].kind == "id" and toks[i - 2].text in self.const_prefix:
+                ok = not (i >= 3 and toks[i - 3].text == "::")
+            elif toks[i - 2].text == ">":
+                # turbofish:  Uint :: < ... > :: NAME
+                k = i - 2
+                depth = 0
+                while k >= 0:
+                    if toks[k].text == ">":
+                        depth += 1
+                    elif toks[k].text == "<":
+                        depth -= 1
+                        if depth == 0:
+                            break
+                    k -= 1
+                if k >= 2 and toks[k - 1].text == "::" and toks[k - 2].kind == "id" and toks[k - 2].text in self.const_prefix:
+                    ok = True
+            if ok:
                 out += [Tok("open", "(", "", 0), Tok("close", ")", "", 0)]
                 self.note("N6-const-use")
         return out
